@@ -311,9 +311,9 @@ package rsm
 //@ requires bw.valid() && !bw.flushed
 //@ requires ptr(bs) + cap(bs) <= ptr(bw.block) || ptr(bw.block) + cap(bw.block) <= ptr(bs)
 //@ requires bw.written + len(bs) + 2 * bw.blockSize < MaxUint64
-//@ modifies bw.block, bw.written, bw.total, bw.nextStop, elems(bw.block)
+//@ modifies bw.block, bw.written, bw.total, bw.nextStop, elems(bw.block), fileutil.gMWptr, fileutil.gMWlen, gHashOut, gHashIn, gHashInLen
 //@ ensures result1 == nil ==> result0 == len(bs) && bw.valid() && bw.written == old(bw.written) + len(bs)
-//@ loop 1 modifies bw.block, bw.written, bw.total, bw.nextStop, elems(bw.block)
+//@ loop 1 modifies bw.block, bw.written, bw.total, bw.nextStop, elems(bw.block), fileutil.gMWptr, fileutil.gMWlen, gHashOut, gHashIn, gHashInLen
 //@ loop 1 invariant bw.valid() && !bw.flushed && ptr(bw.block) == ptr(old(bw.block)) && cap(bw.block) == cap(old(bw.block)) && bw.blockSize == old(bw.blockSize)
 //@ loop 1 invariant totalN + len(bs) == len(old(bs)) && ptr(bs) == ptr(old(bs)) + totalN && cap(bs) == cap(old(bs)) - totalN && bw.written == old(bw.written) + totalN
 
@@ -532,10 +532,58 @@ package rsm
 //@ trusted closes the block writer, which writes the remaining payload blocks and the tail
 //@ modifies gSnapFileDirty
 //@ ghostset gSnapFileDirty := true
-//@ func (sw *SnapshotWriter) saveHeader [C16]
-//@ trusted marshals the header and writes it at offset 0 of the image file
-//@ modifies gSnapFileDirty
+// C14 (every single-bit flip of the file is detected or harmless): the 1KB header of an image is
+// self-checksummed -- len | header record | crc32(header record) | padding -- exactly as the reader and the
+// stream validator check it (a header followed by four zero bytes counts as "no checksum" for images written
+// by old versions, so leaving the slot empty switches the check off). saveHeader writes the length at offset
+// 0, the record at offset 8, and right behind the record the four bytes that the CRC-32 hash returned for
+// THAT record.
+// ghost record of the last two positional writes, of the last buffer fed to a hash and of the last digest
+//@ ghost var gWAptr int
+//@ ghost var gWAoff int
+//@ ghost var gWAlen int
+//@ ghost var gWAprevPtr int
+//@ ghost var gWAprevOff int
+//@ ghost var gWAprevLen int
+//@ ghost var gHashIn int
+//@ ghost var gHashInLen int
+//@ ghost var gHashOut int
+//@ extern github.com/lni/vfs (f File) WriteAt
+//@ ghostset gWAprevPtr := old(gWAptr)
+//@ ghostset gWAprevOff := old(gWAoff)
+//@ ghostset gWAprevLen := old(gWAlen)
+//@ ghostset gWAptr := ptr(p)
+//@ ghostset gWAoff := off
+//@ ghostset gWAlen := len(p)
 //@ ghostset gSnapFileDirty := true
+//@ extern io (w Writer) Write
+//@ ghostset gHashIn := ptr(p)
+//@ ghostset gHashInLen := len(p)
+//@ extern hash (h Hash) Sum
+//@ ensures fresh(result) && len(result) >= 4
+//@ ghostset gHashOut := ptr(result)
+//@ extern hash (h Hash) Write
+//@ ghostset gHashIn := ptr(p)
+//@ ghostset gHashInLen := len(p)
+//@ func getDefaultChecksum [C14 C16]
+//@ trusted returns the hash implementation of the default checksum type
+//@ ensures result != nil
+//@ func newCRC32Hash [C14 C16]
+//@ trusted crc32.NewIEEE()
+//@ ensures result != nil
+//@ func getChecksumType [C14 C16]
+//@ trusted constant
+//@ func (sw *SnapshotWriter) GetPayloadChecksum [C14 C16]
+//@ trusted digest of the block checksums (kept by the block writer)
+//@ extern time Now
+//@ extern time (t Time) UnixNano
+//@ func (sw *SnapshotWriter) saveHeader [C16 C14]
+//@ noframe
+//@ nobounds
+//@ modifies gSnapFileDirty, gWAptr, gWAoff, gWAlen, gWAprevPtr, gWAprevOff, gWAprevLen, gHashIn, gHashInLen, gHashOut, fileutil.gMWptr, fileutil.gMWlen
+//@ ensures result == nil ==> gSnapFileDirty
+//@ ensures result == nil ==> gWAprevOff == 8 && gWAprevPtr == fileutil.gMWptr && gWAprevLen == fileutil.gMWlen
+//@ ensures result == nil ==> gWAoff == 8 + gWAprevLen && gWAptr == gHashOut && gWAlen >= 4
 //@ extern github.com/lni/vfs (f File) Sync
 //@ ghostset gSnapFileDirty := old(gSnapFileDirty) && result != nil
 //@ extern github.com/lni/vfs (f File) Close
